@@ -682,6 +682,51 @@ pub fn gen_lostassert(r: &mut Rng, feat: u32) -> (Universe, Prob) {
     (u, Prob { reqs, cons: vec![], soft: vec![] })
 }
 
+/// C12: a union requirement with more than 30 alternatives (the point from which `try_join_all` no longer
+/// returns the first error at once) next to an ordinary requirement whose candidates are hinted: a
+/// cancellation observed by one alternative must not be held back while the other request makes progress.
+pub fn gen_wideunion(r: &mut Rng, feat: u32) -> (Universe, Prob) {
+    let k = r.range(31, 34) as u32;
+    let mut u = Universe::default();
+    let mut members = vec![];
+    for n in 0..k {
+        let id = u.sols.len() as u32;
+        u.sols.push(Sol { name: n, rank: 0, deps: Some(Known { reqs: vec![], cons: vec![] }) });
+        let mut p = Pkg::default();
+        p.cands.push(id);
+        u.pkgs.push(p);
+        u.vss.push(Vs { name: n, matching: vec![id] });
+        members.push(n);
+    }
+    u.unions.push(members);
+    // q (hinted) -> t
+    let qn = k;
+    let tn = k + 1;
+    let mut pq = Pkg::default();
+    let mut pt = Pkg::default();
+    for i in 0..r.range(1, 2) as u32 {
+        let id = u.sols.len() as u32;
+        u.sols.push(Sol { name: qn, rank: i, deps: Some(Known { reqs: vec![Req::Single(k + 1)], cons: vec![] }) });
+        pq.cands.push(id);
+    }
+    let tid = u.sols.len() as u32;
+    u.sols.push(Sol { name: tn, rank: 0, deps: Some(Known { reqs: vec![], cons: vec![] }) });
+    pt.cands.push(tid);
+    if feat & F_HINTS != 0 {
+        pq.hint = Hint::All;
+    }
+    let qc = pq.cands.clone();
+    u.pkgs.push(pq);
+    u.pkgs.push(pt);
+    u.vss.push(Vs { name: qn, matching: qc });
+    u.vss.push(Vs { name: tn, matching: vec![tid] });
+    let mut reqs = vec![Req::Union(0), Req::Single(k)];
+    if r.chance(1, 2) {
+        reqs.reverse();
+    }
+    (u, Prob { reqs, cons: vec![], soft: vec![] })
+}
+
 /// Long soft-requirement lists in which several consecutive entries are rejected early (Unknown
 /// dependencies, exclusions, requirements without candidates), over small cyclic universes: exercises
 /// the bookkeeping between successive run_sat invocations (decisions assigned false but not yet
@@ -828,6 +873,7 @@ pub fn gen_case(id: u64, seed: u64, class: &str, feat: u32) -> Case {
         "conflictx" => gen_conflict_with(&mut r, feat, true, false),
         "conflictc" => gen_conflict_with(&mut r, feat, false, true),
         "lostassert" => gen_lostassert(&mut r, feat),
+        "wideunion" => gen_wideunion(&mut r, feat),
         "fanout" => gen_fanout(&mut r, feat),
         "softdeep" => gen_softdeep(&mut r, feat),
         "softrej" => gen_softrej(&mut r, feat),
